@@ -33,6 +33,21 @@ func (c01) Run(c Case, env *Env) Result {
 	if c.Sub >= 0 {
 		lo, hi = c.Sub, c.Sub+1
 	}
+	// one Serializer and one pair of maps re-used for every value of the batch (the advertised
+	// usage): a decoder or encoder that remembers anything about an earlier message shows up here
+	var sharedSer hessian.Serializer
+	sharedTM, sharedNM := map[string]reflect.Type{}, map[string]string{}
+	if c.Kind == "rand" || c.Kind == "bag" || c.Kind == "len" {
+		ok := true
+		for j := lo; j < hi && ok; j++ {
+			if v, _, skip := zooSub(c, j, env, "C01"); !skip {
+				ok = mergeMaps(sharedTM, sharedNM, v)
+			}
+		}
+		if ok && len(sharedTM) > 0 {
+			sharedSer = hessian.NewSerializer(sharedTM, sharedNM)
+		}
+	}
 	for j := lo; j < hi; j++ {
 		val, feats, skip := zooSub(c, j, env, "C01")
 		if skip {
@@ -82,6 +97,27 @@ func (c01) Run(c Case, env *Env) Result {
 			continue
 		}
 		res.Max("wire_bytes", int64(len(o.Wire)))
+		if sharedSer != nil {
+			pi, _ := Guard(func() {
+				b, err := sharedSer.ToBytes(val)
+				if err != nil {
+					viol("reused:enc-error", "re-used Serializer.ToBytes: "+err.Error())
+					return
+				}
+				d, err := sharedSer.ToObject(b)
+				if err != nil {
+					viol("reused:dec-error", "re-used Serializer.ToObject: "+err.Error())
+					return
+				}
+				if m := zoo.Equiv(val, d, zoo.EquivOpts{}); m != "" {
+					viol("reused:mismatch", "re-used Serializer: "+m)
+				}
+			})
+			if pi != nil {
+				viol("reused:panic", pi.Class+": "+pi.Msg)
+			}
+			res.Count("roundtrips_on_a_reused_serializer", 1)
+		}
 		// second observe-at point: Serializer.ToBytes / ToObject must agree
 		if j%4 == 0 {
 			pi, _ := Guard(func() {
